@@ -249,7 +249,7 @@ def _shapes(tier: str, seed: int) -> List[dict]:
     if tier == "quick":
         exprs = leaves + core + gen.sample(d1, 24, seed) + gen.sample(d2, 12, seed + 1)
     else:
-        exprs = leaves + core + d1 + gen.sample(d2, 900, seed + 1)
+        exprs = leaves + core + d1 + gen.sample(d2, 450, seed + 1)
     out, seen = [], set()
     for e in exprs:
         sh, hs = gen.renumber(e)
